@@ -6,7 +6,8 @@
 From Coq Require Import List ZArith Lia.
 Require Import Avro.Model.Base Avro.Model.Prim Avro.Model.Schema Avro.Model.GoType Avro.Model.Time
                Avro.Model.Spec Avro.Model.Codec Avro.Model.Container.
-Require Import Avro.Proofs.SafeP Avro.Proofs.BuildP Avro.Proofs.TimeP.
+Require Import Avro.Model.Typing.
+Require Import Avro.Proofs.SafeP Avro.Proofs.BuildP Avro.Proofs.TimeP Avro.Proofs.LayoutP Avro.Proofs.TypedP Avro.Proofs.CtypeP.
 Import ListNotations.
 Open Scope Z_scope.
 
@@ -14,6 +15,15 @@ Open Scope Z_scope.
 Theorem C06_skip_never_panics : forall fuel c bs, c_skip fuel c bs <> Panic.
 Proof. exact skip_no_panic. Qed.
 Print Assumptions C06_skip_never_panics.
+
+(* the decode path: every codec buildCodec returns, every byte string, every
+   destination of the Go type (in particular the zeroed target ReadFile uses):
+   a value of that type or an error, never a panic *)
+Theorem C06_read_never_panics : forall reg, reg_sane reg ->
+  forall s t om c fuel bs, build reg s (Some t) om = Some c ->
+  c_read fuel c (zero_of t) bs <> Panic /\ (forall v r, c_read fuel c (zero_of t) bs = Done v r -> wt t v).
+Proof. intros reg Hr s t om c fuel bs Hb. eapply built_codec_safe; eauto. apply zero_wt. Qed.
+Print Assumptions C06_read_never_panics.
 
 (* "does not hang": with fuel linear in the input length the skip loops never run
    out of fuel, for every codec whose collection items occupy at least one byte *)
